@@ -98,7 +98,7 @@ func boolT(b bool) Term {
 	return Term{S: "false", Sort: "Bool", C: big.NewInt(0)}
 }
 
-var intBV bool // model Go int as 64-bit bit-vector instead of mathematical Int
+var intBV = true // Go int is a 64-bit bit-vector (DESIGN 2.3)
 
 func ISort() string {
 	if intBV {
